@@ -154,18 +154,36 @@ Theorem C04_lock_released_early_refuted :
   grun2 false true gate2_0 overtaken_trace = None.
 Proof. exact lock_released_early_refuted. Qed.
 
-(* WebSocket transport (the opening handshake may be answered by redirects): authentication data goes
-   out in clear text only when the application allowed insecure connections AND no URL of the chain,
-   the configured address included, was a TLS one; once a URL of the chain is https the connection
-   established is TLS. *)
-Theorem C04_ws_clear_auth_only_if_allowed : forall insecure addr redirects,
-  ws_connect insecure addr redirects = WAuth false ->
-  insecure = true /\ addr = Http /\ ~ In Https redirects.
-Proof. exact ws_connect_clear_auth. Qed.
+(* WebSocket transport (the opening handshake may be answered by redirects; TLS is that of the https
+   requests, under the TLS configuration of the application: handshake_ok with the host of the URL in
+   the place of the domain).  Authentication data is written only if the application allowed
+   insecure connections, or: the CONFIGURED address is a wss:// one, every URL of the redirect chain
+   is https, the connection is TLS, and the certificate was accepted under the application's
+   configuration (its roots; ServerName or the host of the URL) unless it disabled verification.  In
+   particular a ws:// address redirected to https:// does not count as secure: whoever answered the
+   clear-text handshake chose the host. *)
+Theorem C04_ws_credentials : forall insecure t c addr redirects b,
+  ws_connect insecure (handshake_ok t c) addr redirects = WAuth b ->
+  insecure = true \/
+  (addr = Https /\ Forall (fun x => x = Https) redirects /\ b = true /\
+   (t_skip t = true \/
+    (c_trusted c = true /\ valid_for c (match t_servername t with [] => t_domain t | n => n end) = true))).
+Proof.
+  intros insecure t c addr redirects b H. apply ws_connect_credentials in H as [H|(H1 & H2 & H3 & H4)]; [left; exact H|].
+  right. repeat split; try assumption. apply handshake_ok_sound; exact H3.
+Qed.
 
-Theorem C04_ws_redirects_never_leave_tls : forall cur redirects n s,
-  ws_dial cur redirects n = Some s -> cur = Https \/ In Https redirects -> s = Https.
-Proof. intros cur redirects n s. apply ws_dial_no_downgrade. Qed.
+(* Whatever Insecure says: what is written over TLS went to an endpoint whose certificate was accepted
+   under the application's configuration. *)
+Theorem C04_ws_tls_verified : forall insecure t c addr redirects,
+  ws_connect insecure (handshake_ok t c) addr redirects = WAuth true ->
+  t_skip t = true \/
+  (c_trusted c = true /\ valid_for c (match t_servername t with [] => t_domain t | n => n end) = true).
+Proof. intros insecure t c addr redirects H. apply handshake_ok_sound. eapply ws_connect_tls_verified; exact H. Qed.
+
+Theorem C04_ws_redirects_never_leave_tls : forall ok cur redirects n s,
+  ws_dial ok cur redirects n = Some s -> cur = Https \/ In Https redirects -> s = Https.
+Proof. intros ok cur redirects n s. apply ws_dial_no_downgrade. Qed.
 
 (* hypotheses are satisfiable, and the flags matter: the second connection of a history whose first
    one ran over TLS, from the state that connection left (isSecure, TlsEnabled = true): with the
@@ -212,9 +230,12 @@ Example C04_gate_example :
 Proof. reflexivity. Qed.
 
 Example C04_ws_example :
-  ws_connect false Https [Http] = WDialError /\ ws_connect false Https [Https] = WAuth true /\
-  ws_connect false Http [] = WNoTls /\ ws_connect true Http [] = WAuth false /\
-  ws_connect true Https [Https; Http] = WDialError.
+  ws_connect false true Https [Http] = WDialError /\ ws_connect false true Https [Https] = WAuth true /\
+  ws_connect false true Http [] = WNoTls /\ ws_connect true true Http [] = WAuth false /\
+  ws_connect true true Https [Https; Http] = WDialError /\
+  ws_connect false true Http [Https] = WNoTls /\      (* redirected to https by a clear-text answer: not secure *)
+  ws_connect true true Http [Https] = WAuth true /\
+  ws_connect false false Https [] = WDialError.        (* certificate not accepted under the configuration *)
 Proof. repeat split. Qed.
 
 Print Assumptions C04_flag_model_is_session_model.
@@ -233,5 +254,6 @@ Print Assumptions C04_starttls_refusals_permanent.
 Print Assumptions C04_sends_gated.
 Print Assumptions C04_no_send_while_connecting.
 Print Assumptions C04_resend_gated.
-Print Assumptions C04_ws_clear_auth_only_if_allowed.
+Print Assumptions C04_ws_credentials.
+Print Assumptions C04_ws_tls_verified.
 Print Assumptions C04_ws_redirects_never_leave_tls.
